@@ -768,3 +768,119 @@ Proof.
   split; [apply Qc_is_canon; vm_compute; reflexivity|].
   vm_compute. reflexivity.
 Qed.
+
+(* 27. The two embed() bodies as SINGLE functions of their oracles.
+       Laplacian Eigenmaps: neighbour search (oracle of the requested k) -> compute_laplacian -> generalised solver
+       (oracle; its contract is stated on the matrices it is HANDED: the triplet sum and diag(D)) -> columns 1..d.
+       The result satisfies the property's le_spec for the Laplacian / degree matrix of the FULL returned lists. *)
+Theorem Lap_method_embed :
+  forall (F : Type) (Fo : FieldOps F) (Ff : IsField F)
+         (dist : nat -> nat -> F) (width : F) (expo : F -> F)
+         (search : nat -> list (list nat)) (kreq n d : nat)
+         (solver : mat F -> vec F -> mat F * vec F)
+         (ts : list (@triplet F)) (D : list F) (V : mat F) (lam : vec F),
+    le_method_laplacian dist width expo search kreq n = LOk (ts, D) ->
+    uniform_lists (search kreq) n ->
+    d + 1 <= n ->
+    solver (mat_of_triplets ts) (vof D) = (V, lam) ->
+    gen_contract n (mat_of_triplets ts) (mdiag (vof D)) V lam ->
+    (forall c, c < d -> lam (1 + c) <> 0%F) ->
+    let heat := heat_of dist width expo in
+    exists Y, le_method_embed dist width expo search kreq n d solver = Some Y /\
+              (forall r c, Y r c = V r (1 + c)) /\
+              le_spec n d (matL_full heat (search kreq) n) (mdiag (degD_full heat (search kreq) n)) Y
+                      (fun c => lam (1 + c)).
+Proof. exact @le_method_embed_spec. Qed.
+Print Assumptions Lap_method_embed.
+
+Definition c4_search (kreq : nat) : list (list nat) := c4_nbrs.
+Definition c4_solver (L : mat Qc) (D : vec Qc) : mat Qc * vec Qc := (c4_V, c4_lam).
+
+Example Lap_method_embed_nonvacuous :
+  exists ts D,
+    le_method_laplacian reqk_dist (qz 1) reqk_expo c4_search 2 4 = LOk (ts, D) /\
+    uniform_lists (c4_search 2) 4 /\
+    c4_solver (mat_of_triplets ts) (vof D) = (c4_V, c4_lam) /\
+    gen_contract 4 (mat_of_triplets ts) (mdiag (vof D)) c4_V c4_lam /\
+    (forall c, c < 2 -> c4_lam (1 + c) <> 0%F) /\
+    (match le_method_embed reqk_dist (qz 1) reqk_expo c4_search 2 4 2 c4_solver with
+     | Some Y => mlist_eqb (mtab 4 2 Y) [[q4; q4]; [q4; (-q4)%Qc]; [(-q4)%Qc; (-q4)%Qc]; [(-q4)%Qc; q4]]
+     | None => false end) = true.
+Proof.
+  eexists. eexists. split; [vm_compute; reflexivity|].
+  split.
+  { intros i Hi. destruct i as [|[|[|[|i]]]]; try lia; reflexivity. }
+  split; [reflexivity|].
+  split.
+  { split; apply meq_by_compute; vm_compute; reflexivity. }
+  split.
+  { intros c Hc H. destruct c as [|[|c]]; try lia; vm_compute in H; discriminate. }
+  vm_compute. reflexivity.
+Qed.
+
+
+(*     Diffusion Map: compute_diffusion_matrix -> self-adjoint solver (oracle, contract on the matrix it is HANDED)
+       -> lambda^t scaling and division by the top column.  sqrt contract: sqrto(q_i)^2 = q_i on the arguments used. *)
+Theorem Dm_method_embed :
+  forall (F : Type) (Fo : FieldOps F) (Ff : IsField F)
+         (dist : nat -> nat -> F) (width : F) (expo sqrto : F -> F)
+         (n d t : nat) (solver : mat F -> mat F * vec F) (powo : F -> nat -> F)
+         (V : mat F) (lam : vec F) (alpha : F),
+    d + 1 <= n ->
+    let K := dm_kernel dist width expo in
+    let s := dm_p2 dist width expo sqrto n in
+    (forall i, i < n -> dm_P K n i <> 0%F) ->
+    (forall i, i < n -> s i <> 0%F) ->
+    (forall i, i < n -> (sqrto (dm_Q K n i) * sqrto (dm_Q K n i))%F = dm_Q K n i) ->
+    solver (dm_matrix dist width expo sqrto n) = (V, lam) ->
+    (forall c, c < d ->
+       eigvec n (dm_matrix dist width expo sqrto n) (lam (n - (d + 1) + c)) (mcol V (n - (d + 1) + c))) ->
+    (forall x, powo x t = fpow x t) ->
+    alpha <> 0%F -> (forall i, i < n -> V i (n - 1) = (alpha * s i)%F) ->
+    exists Y, dm_method_embed dist width expo sqrto n d t solver powo = Some Y /\
+      (forall r c, r < n -> c < d ->
+         Y r c = dm_spec d t (fun x c0 => V x (n - (d + 1) + c0))
+                         (fun c0 => lam (n - (d + 1) + c0))
+                         (fun x => V x (n - 1)) r c) /\
+      (forall c, c < d ->
+         exists Y', veq n (mcol Y c) Y' /\
+                    eigvec n (dm_markov K n) (lam (n - (d + 1) + c)) Y').
+Proof. exact @dm_method_embed_spec. Qed.
+Print Assumptions Dm_method_embed.
+
+(* Walsh-Hadamard instance through the whole Diffusion Map method: distances i xor j, width 1, exp oracle
+   0 -> 1, -1 -> 3/2, -4 -> 1, -9 -> 1/2 (this is exm_K), sqrt oracle 1/4 -> 1/2 *)
+Definition exm_dist : nat -> nat -> Qc :=
+  mof [[qz 0; qz 1; qz 2; qz 3]; [qz 1; qz 0; qz 3; qz 2]; [qz 2; qz 3; qz 0; qz 1]; [qz 3; qz 2; qz 1; qz 0]].
+Definition exm_expo (x : Qc) : Qc :=
+  if qeqb x (qz 0) then qz 1 else if qeqb x (qz (-1)) then qfrac 3 2 else if qeqb x (qz (-4)) then qz 1 else qfrac 1 2.
+Definition exm_sqrt (x : Qc) : Qc := if qeqb x (qfrac 1 4) then qfrac 1 2 else qz 0.
+Definition exm_solver (M : mat Qc) : mat Qc * vec Qc := (exm_V, exm_lam).
+
+Example Dm_method_embed_nonvacuous :
+  let K := dm_kernel exm_dist (qz 1) exm_expo in
+  let s := dm_p2 exm_dist (qz 1) exm_expo exm_sqrt 4 in
+  (forall i, i < 4 -> dm_P K 4 i <> 0%F) /\
+  (forall i, i < 4 -> s i <> 0%F) /\
+  (forall i, i < 4 -> (exm_sqrt (dm_Q K 4 i) * exm_sqrt (dm_Q K 4 i))%F = dm_Q K 4 i) /\
+  (forall c, c < 3 -> eigvec 4 (dm_matrix exm_dist (qz 1) exm_expo exm_sqrt 4) (exm_lam (4 - (3 + 1) + c))
+                             (mcol exm_V (4 - (3 + 1) + c))) /\
+  (forall i, i < 4 -> exm_V i (4 - 1) = (qz 1 * s i)%F) /\
+  (match dm_method_embed exm_dist (qz 1) exm_expo exm_sqrt 4 3 3 exm_solver (@fpow Qc _) with
+   | Some Y => mlist_eqb (mtab 4 3 Y)
+                 [[qfrac (-1) 64; qz 0; qfrac 1 64]; [qfrac 1 64; qz 0; qfrac 1 64];
+                  [qfrac 1 64; qz 0; qfrac (-1) 64]; [qfrac (-1) 64; qz 0; qfrac (-1) 64]]
+   | None => false end) = true.
+Proof.
+  split.
+  { intros i Hi H. destruct i as [|[|[|[|i]]]]; try lia; vm_compute in H; discriminate. }
+  split.
+  { intros i Hi H. destruct i as [|[|[|[|i]]]]; try lia; vm_compute in H; discriminate. }
+  split.
+  { intros i Hi. destruct i as [|[|[|[|i]]]]; try lia; apply Qc_is_canon; vm_compute; reflexivity. }
+  split.
+  { intros c Hc. destruct c as [|[|[|c]]]; try lia; apply veq_by_compute; vm_compute; reflexivity. }
+  split.
+  { intros i Hi. destruct i as [|[|[|[|i]]]]; try lia; apply Qc_is_canon; vm_compute; reflexivity. }
+  vm_compute. reflexivity.
+Qed.
